@@ -7,11 +7,9 @@
 
 use std::fmt::Write as _;
 
-use crate::coding::Codec;
-use crate::packet::PacketNumber;
-use crate::VarInt;
+use std::collections::BTreeMap;
 
-use super::spaces::Dedup;
+mod wire;
 
 pub(crate) fn hex(b: &[u8]) -> String {
     if b.is_empty() {
@@ -40,110 +38,54 @@ pub(crate) fn num(s: &str) -> Option<u64> {
     s.parse().ok()
 }
 
-const BAD: &str = "bad-op";
+pub(crate) const BAD: &str = "bad-op";
 
-/// All component states addressed by the line protocol
-pub struct Exec {
-    dedup: Dedup,
+/// One addressable component: holds its own state, executes one request (first token removed).
+pub(crate) trait Comp {
+    fn exec(&mut self, w: &[&str]) -> String;
 }
 
-impl Default for Exec {
-    fn default() -> Self {
-        Self::new()
-    }
+type Ctor = fn() -> Box<dyn Comp>;
+
+/// Registry: first token of a request line -> constructor of the component's fresh state.
+/// One line per component.
+fn registry(name: &str) -> Option<Ctor> {
+    Some(match name {
+        "varint" => || Box::new(wire::VarIntC),
+        "pn" => || Box::new(wire::PnC),
+        "dedup" => || Box::new(wire::DedupC::new()),
+        _ => return None,
+    })
+}
+
+/// All component states addressed by the line protocol
+#[derive(Default)]
+pub struct Exec {
+    comps: BTreeMap<String, Box<dyn Comp>>,
 }
 
 impl Exec {
     pub fn new() -> Self {
-        Self {
-            dedup: Dedup::new(),
-        }
+        Self::default()
     }
 
     /// Execute one request line. May panic exactly where the component panics.
+    /// `case <id>` drops every component state (fresh states are created on first use).
     pub fn exec(&mut self, line: &str) -> String {
         let w: Vec<&str> = line.split_ascii_whitespace().collect();
-        match w.split_first() {
-            Some((&"case", _)) => {
-                *self = Self::new();
-                line.trim().to_string()
-            }
-            Some((&"varint", r)) => varint(r),
-            Some((&"pn", r)) => pn(r),
-            Some((&"dedup", r)) => self.dedup(r),
-            _ => BAD.into(),
+        let Some((&first, rest)) = w.split_first() else {
+            return BAD.into();
+        };
+        if first == "case" {
+            self.comps.clear();
+            return line.trim().to_string();
         }
-    }
-
-    fn dedup(&mut self, w: &[&str]) -> String {
-        match w {
-            ["new"] => {
-                self.dedup = Dedup::new();
-                "ok".into()
-            }
-            ["insert", p] => {
-                let Some(p) = num(p) else { return BAD.into() };
-                if p == u64::MAX {
-                    return BAD.into();
-                }
-                let dup = self.dedup.insert(p);
-                let (window, next) = self.dedup.verif_state();
-                format!("{dup} {next} {window}")
-            }
-            _ => BAD.into(),
-        }
-    }
-}
-
-fn varint(w: &[&str]) -> String {
-    match w {
-        ["enc", x] => {
-            let Some(x) = num(x) else { return BAD.into() };
-            match VarInt::from_u64(x) {
-                Err(_) => "err bounds".into(),
-                Ok(v) => {
-                    let mut buf = Vec::new();
-                    v.encode(&mut buf);
-                    format!("ok {} {}", hex(&buf), v.size())
-                }
-            }
-        }
-        ["dec", h] => {
-            let Some(b) = unhex(h) else { return BAD.into() };
-            let mut r = &b[..];
-            match VarInt::decode(&mut r) {
-                Ok(v) => format!("ok {} {}", v.into_inner(), b.len() - r.len()),
-                Err(_) => "err end".into(),
-            }
-        }
-        _ => BAD.into(),
-    }
-}
-
-fn pn(w: &[&str]) -> String {
-    match w {
-        ["new", n, la] => {
-            let (Some(n), Some(la)) = (num(n), num(la)) else {
+        if !self.comps.contains_key(first) {
+            let Some(ctor) = registry(first) else {
                 return BAD.into();
             };
-            let p = PacketNumber::new(n, la);
-            let mut buf = Vec::new();
-            p.encode(&mut buf);
-            format!("ok {} {}", p.len(), hex(&buf))
+            self.comps.insert(first.to_string(), ctor());
         }
-        ["expand", h, e] => {
-            let (Some(b), Some(e)) = (unhex(h), num(e)) else {
-                return BAD.into();
-            };
-            if b.is_empty() || b.len() > 4 {
-                return BAD.into();
-            }
-            let mut r = std::io::Cursor::new(&b[..]);
-            match PacketNumber::decode(b.len(), &mut r) {
-                Ok(p) => format!("ok {}", p.expand(e)),
-                Err(_) => "err end".into(),
-            }
-        }
-        _ => BAD.into(),
+        self.comps.get_mut(first).unwrap().exec(rest)
     }
 }
